@@ -1267,6 +1267,18 @@ pub fn suite_many_avps(out: &mut Out, tier: &str, rng: &mut Rng) {
     } else {
         vec![15, 16, 17, 18, 33, 64, 65, 255, 256, 257, 300]
     };
+    // as many AVPs as a 65 535-octet message can hold (10 919 six-octet records after the Message Type)
+    for n in [8191usize, 8192, 10920] {
+        if tier != "thorough" && n == 8191 {
+            continue;
+        }
+        let mut avps = vec![gen_message_type(rng)];
+        for _ in 1..n {
+            avps.push(json!({"k": "SequencingRequired", "f": []}));
+        }
+        let m = json!({"k": "Control", "length": 0, "tunnel_id": 1, "session_id": 2, "ns": 3, "nr": 4, "avps": avps});
+        out.emit(json!({"op": "roundtrip", "kind": "msg", "v": m}));
+    }
     for &n in counts_list.iter() {
         for variant in 0..2 {
             let mut avps = vec![gen_message_type(rng)];
